@@ -15,6 +15,7 @@ import (
 	"time"
 
 	v1 "github.com/akramarenkov/cqos/priority"
+	"github.com/akramarenkov/cqos/v2/priority"
 	"github.com/akramarenkov/cqos/v2/priority/simple"
 )
 
@@ -42,6 +43,7 @@ type srun struct {
 	stopRet, graceRet            atomic.Bool
 	stopRetLogged, graceRetLogged, ecLogged bool
 	sawErrBad bool
+	rounds    atomic.Int64 // rounds of the inner discipline's scheduler (counting hook)
 }
 
 func (r *srun) emit(o any) {
@@ -93,6 +95,14 @@ func newSimple(t *testing.T, cfg Config) *srun {
 		inputs[p] = r.ch[c]
 	}
 	r.ctx, r.cancel = context.WithCancel(context.Background())
+	count := func(name string) {
+		if name == "RoundEnd" {
+			r.rounds.Add(1)
+		}
+	}
+	v1.VerifHook = func(ev v1.VerifEvent) { count(ev.Ev) }
+	priority.VerifHook = func(ev priority.VerifEvent) { count(ev.Ev) }
+	defer func() { v1.VerifHook, priority.VerifHook = nil, nil }()
 	if cfg.Ver == 1 {
 		s, err := v1.NewSimple(v1.SimpleOpts[int]{Ctx: r.ctx, Divider: dividerV1(cfg.Div), Handle: r.handle, HandlersQuantity: cfg.H, Inputs: inputs})
 		if err != nil {
@@ -211,12 +221,12 @@ func (r *srun) finishAllHandles() {
 }
 
 func (r *srun) waitFor(rounds int, cond func() bool) bool {
-	for i := 0; i < rounds; i++ {
+	for i := 0; i < rounds/4+2; i++ {
 		r.observe()
 		if cond() {
 			return true
 		}
-		time.Sleep(3 * time.Nanosecond)
+		idleWait(&r.rounds)
 	}
 	return cond()
 }
@@ -307,8 +317,7 @@ func (r *srun) finish() {
 	r.waitFor(400, func() bool { r.finishAllHandles(); return terminated() })
 	if terminated() {
 		synctest.Wait()
-		time.Sleep(5 * time.Nanosecond)
-		synctest.Wait()
+		idleWait(&r.rounds)
 		if n := moduleGoroutines(); n > 0 {
 			r.emit(obs{E: "Leak", K: n, Note: "goroutines with frames of the library remain after termination"})
 		}
@@ -381,7 +390,7 @@ func TestRecordSimple(t *testing.T) {
 					}
 				}
 				if !r.envAction(rnd) {
-					time.Sleep(2 * time.Nanosecond)
+					idleWait(&r.rounds)
 				}
 				r.observe()
 			}
